@@ -196,8 +196,9 @@ def talentschedCase (toks u : List String) (i : List String) : Option Res := do
       -- `talentsched-merge-first-lost` (the merge forgets the scenes only the FIRST merged state still has to shoot) is an
       -- operator-level OBSERVATION, not a failure of C16: no instance is known on which the program prints a wrong objective
       -- (DESIGN.md 11.4); it is counted in the model text and reported as an `O:` note.  Every other violation fails `phi`.
-      let hard := viol.filter (fun v => v.1 ≠ "talentsched-merge-first-lost")
-      let obs := viol.filter (fun v => v.1 = "talentsched-merge-first-lost")
+      -- since the repair of the merge (D18) the class `talentsched-merge-first-lost` is a failure like any other
+      let hard := viol
+      let obs : List (String × String) := []
       pure { agree := bad.isEmpty, phi := hard.isEmpty,
              model := s!"events {evs.length} merges {merges.length} of3+ {big.length} orders {tbl.length}{if ung = 0 then "" else s!" unguarded {ung}"}{if hard.isEmpty then "" else s!" violations {hard.length}"}{if obs.isEmpty then "" else s!" first-lost {obs.length}"}",
              note := (match hard.head? with | none => "" | some v => s!"F:C16 [C16:{v.1}: {v.2}]")
